@@ -68,3 +68,37 @@ def check_C04(tier):
 
 def check_C05(tier):
     return _answers("C05", tier, "c", STRICT_THMS["C05"])
+
+
+def check_C07(tier):
+    chk = Check("C07", tier)
+    rng = random.Random(chk.seed)
+    infer.verify_theorems(chk, ["ThmWeak", "Coincide", "Incl", "ZModel"], tier, rng)
+    configs = infer.configs_for(["p", "z", "w", "l"], [True])
+    rows = infer.gen_vectors(chk, maxb=2, with_c=False)
+    weak_rows = [r for r in rows if r["weak"]]
+    if tier == "quick":  # every weakly consistent base with no finite layer or a mixed partition, a seeded half of the strong ones
+        weak_rows = [r for r in weak_rows if (not r["strong"]) or rng.random() < 0.5]
+    infer.run_exhaustive(chk, weak_rows, configs, rng, qfrac=(1.0 if tier == "thorough" else 1 / 6), only=lambda row, weakly: row["weak"])
+    n = 80 if tier == "quick" else 1300
+    cases = []
+    for shape in ("weak-nofin", "weak-mixed", "strong"):
+        for i in range(n):
+            cases.append(infer.gen_case(rng, rng.choice([2, 3, 3, 4]), rng.choice([1, 2, 3, 3, 4, 5]), 12, {shape}))
+    infer.run_sampled(chk, cases, configs)
+    shapes = {}
+    import pysem
+    for c in cases:
+        if c:
+            s = pysem.shape(infer.vecs(c["base"]))
+            shapes[s] = shapes.get(s, 0) + 1
+    chk.cov["sampled_shapes"] = shapes
+    chk.cov["exhaustive"] = tier == "thorough"
+    chk.cov["rule"] = (
+        "extended mode, operators p/Z/W/lex x every back-end. path G: every weakly consistent base of <=2 conditionals over 2 atoms "
+        "(quick: all non-strong ones and a seeded half of the strong ones, a sixth of the 81 queries; thorough: all, all queries). path T: "
+        "seeded bases over 2-4 atoms stratified in equal parts into no-finite-layer / mixed / strongly consistent, validated by TLC. "
+        "Non-trivial = both A&B and A&!B have a feasible world."
+    )
+    chk.assumptions += ["oracle = InfOCFSem.tla extended-mode definitions, validated by ThmWeak/Coincide on the 2-atom universe"]
+    return chk.finish()
